@@ -95,18 +95,19 @@ class LoanManager:
         # Only loans that have just been created can be canceled
         assert loan.created_at == self._ctx.dispatcher.now()
 
+        # Close the loan before giving the funds back. Its outstanding interest was not part of the margin level when
+        # the loan was granted, so it should not be part of it while the loan is being undone either. Otherwise the
+        # margin level check could reject the rollback, leaving the loan behind.
+        loan.close()
+        collateral = self._collateral_by_loan.pop(loan_id)
+
         # Update balances.
-        collateral = self._collateral_by_loan[loan_id]
         balance_updates = ValueMap({loan.borrowed_symbol: -loan.borrowed_amount})
         self._ctx.account_balances.update(
             balance_updates=balance_updates,
             borrowed_updates=balance_updates,
             hold_updates={symbol: -amount for symbol, amount in collateral.items()}
         )
-
-        # Close the loan now that balance updates succeeded.
-        loan.close()
-        self._collateral_by_loan.pop(loan_id)
 
     def _get_open_loan(self, loan_id: str) -> lending_base.Loan:
         loan = self._loans.get(loan_id)
